@@ -1,167 +1,32 @@
 """C07 — parameter code length and zero-snapping follow the MDL formula."""
-import itertools, math, random
-from vlib.common import harness_many, CheckerError
+from vlib import deductive as D
+from contracts import c_fisher
+from checks import _wrap
 
 META = {
-    "level": "exploration",
-    "text": "Bounded stand-in: the real esr.fitting.test_all_Fisher.convert_params is called (as test_all_Fisher.main and fit_single.single_function call it) on "
-            "linear-in-parameter families with 1-4 parameters under the real GaussLikelihood, with data constructed so that the weighted-least-squares optimum is "
-            "exactly theta_i = t_i sqrt(12/I_ii) for prescribed t_i in the categories below (0.2-0.8), just below (0.90-0.97), just above (1.03-1.10), above "
-            "(1.5-300) the snapping threshold and exactly zero, every category pattern for k<=3, both signs, sigma from 1e-3 to 10, max_param 4 and others. "
-            "Oracle: analytic Hessian G^T diag(1/s^2) G, snapped set, k, code length -(k/2)ln3 + sum(1/2 ln I_ii + ln|theta_i|) (0 for k=0), parameters with zeros, "
-            "Gaussian NLL re-evaluated at the snapped parameters. Tolerances: codelen 1e-4 + 1e-5 rel, NLL 1e-8 rel, parameters 1e-12 rel, Hessian layout "
-            "deriv[i*max_param-(i-1)i/2+(j-i)] = H_ij to 1e-3. Also: a quadratic stand-in likelihood with prescribed (theta, I) including correlated, indefinite "
-            "(positive diagonal), negative and zero diagonal curvature; a singular family (a0 + a1); a family where snapping makes the likelihood infinite "
-            "(a0 + x/a1: the parameter must be kept); parameter-free functions; flat parameters, an everywhere-infinite likelihood and stationary points with "
-            "negative curvature of non-linear one-parameter functions under the real GaussLikelihood with fixed data seeds (NaN expected).",
-    "note": "Exploration only. The band 0.97 < |theta| sqrt(I/12) < 1.03 is not sampled (there the numerical Hessian decides). 'Non-finite curvature' is "
-            "exercised through an NLL that is +inf around theta; NaN/inf entries produced by a finite NLL are not constructed.",
-    "technique": "bounded stand-in (enumerated threshold-category patterns x families x scales) on the real code, analytic-Hessian oracle",
+    "level": "proof",
+    "text": "The snapping / code-length region of test_all_Fisher.convert_params (from the second curvature test to the return; located by structure) is verified from its "
+            "AST for any number of parameters, with the likelihood an uninterpreted function of the parameter vector (finite, as in the property's quantifier): non-positive "
+            "or NaN curvature gives a NaN code length; otherwise every parameter with Nsteps < 1 is zeroed and dropped, k counts the kept ones, the reported "
+            "negative log-likelihood is the likelihood at the reported (zeroed, zero-padded) parameters, and codelen = -(k/2) ln 3 + sum over kept of (1/2 ln I_ii + ln|theta_i|) "
+            "(0 when nothing is kept). The numerical Hessian, the retry over step sizes, the two lines computing Nsteps = |theta| sqrt(I_ii/12) and the fallback subset search "
+            "(reachable only when the snapped likelihood is infinite) are outside the region: they are covered by the bounded stand-in (real GaussLikelihood, analytic-Hessian "
+            "oracle, threshold categories), which is not counted as proved.",
+    "note": "A-float; Nsteps is an abstract array of finite non-negative numbers inside the region (its defining formula is exercised by the bounded part); 'kept implies theta != 0' "
+            "assumed (|theta| >= one precision step > 0); numpy mask/fancy-index/sum models and the counting lemmas of the lemma library assumed. Known finding (see known_findings.txt): "
+            "the retry loop BEFORE the region can turn a clearly negative curvature into a positive one from rounding noise.",
+    "technique": "contract-based deductive verification of a code region (AST->VC->SMT over ExtReals) + bounded stand-in with analytic-Hessian oracle",
 }
-CHECKER = "./bin/check C07"
-
-CATS = ["below", "nearbelow", "nearabove", "above", "zero"]
-FAMS = {
-    1: [["x"], ["1"], ["1/x"]],
-    2: [["1", "x"], ["x", "1/x"], ["x", "x**2"]],
-    3: [["1", "x", "x**2"], ["x", "1/x", "1"]],
-    4: [["1", "x", "x**2", "1/x"]],
-}
-
-
-def draw(rng, cat):
-    sg = rng.choice([1, -1])
-    if cat == "below":
-        return sg * rng.uniform(0.2, 0.8)
-    if cat == "nearbelow":
-        return sg * rng.uniform(0.90, 0.97)
-    if cat == "nearabove":
-        return sg * rng.uniform(1.03, 1.10)
-    if cat == "above":
-        return sg * 10 ** rng.uniform(math.log10(1.5), 2.5)
-    if cat == "zero":
-        return 0.0
-    raise ValueError(cat)
-
-
-def configs(tier, seed):
-    rng = random.Random(seed * 7919 + 7)
-    quick = tier == "quick"
-    cats = CATS[:4] if quick else CATS
-    reps = 1 if quick else 12
-    out = []
-
-    def common():
-        return {"sigma": rng.choice([1e-3, 0.05, 0.2, 1.0, 10.0]), "hetero": rng.random() < 0.5, "n": rng.choice([20, 30, 40]),
-                "dseed": rng.randrange(2 ** 31), "resid": rng.choice([0.3, 1.0, 3.0])}
-    for k, fl in sorted(FAMS.items()):
-        pats = list(itertools.product(cats, repeat=k))
-        if k == 4:
-            pats = rng.sample(pats, 48 if quick else 400)
-        if k == 3 and quick:
-            pats = rng.sample(pats, 40)
-        for names in fl:
-            for pat in pats:
-                for rep in range(reps):
-                    c = common()
-                    c.update({"id": "gauss:%s:%s:r%d" % (",".join(names), ",".join(pat), rep), "kind": "gauss", "basis": names, "cats": list(pat),
-                              "t": [draw(rng, ct) for ct in pat],
-                              "max_param": 4 if (k == 4 or rng.random() < 0.6) else rng.choice([m for m in (k, 3, 5, 6) if m >= k])})
-                    out.append(c)
-    if quick:       # the exactly-zero optimum, a few times
-        for names in (["x"], ["1", "x"], ["1", "x", "x**2"]):
-            for z in range(len(names)):
-                pat = ["above"] * len(names)
-                pat[z] = "zero"
-                c = common()
-                c.update({"id": "gauss:%s:%s:r0" % (",".join(names), ",".join(pat)), "kind": "gauss", "basis": names, "cats": pat,
-                          "t": [draw(rng, ct) for ct in pat], "max_param": 4})
-                out.append(c)
-    # singular information matrix with positive diagonal: only a0 + a1 is constrained
-    for pat in itertools.product(["below", "above"], repeat=2):
-        c = common()
-        c.update({"id": "gauss:singular:%s" % ",".join(pat), "kind": "gauss", "basis": ["1", "1"], "fstr": "a0 + a1", "cats": list(pat),
-                  "t": [draw(rng, ct) for ct in pat], "max_param": 4})
-        out.append(c)
-    # snapping makes the likelihood infinite
-    for pat in (["above", "below"], ["below", "below"], ["nearabove", "nearbelow"], ["nearbelow", "below"]):
-        for rep in range(reps):
-            c = common()
-            c.update({"id": "recip:%s:r%d" % (",".join(pat), rep), "kind": "recip", "cats": pat, "t": [draw(rng, ct) for ct in pat], "max_param": rng.choice([2, 4])})
-            out.append(c)
-    # prescribed (theta, I) pairs through a quadratic stand-in likelihood
-    nq = 24 if quick else 600
-    for q in range(nq):
-        k = rng.choice([1, 2, 3])
-        pat = [rng.choice(cats[:4]) for _ in range(k)]
-        d = [10 ** rng.uniform(-3, 6) for _ in range(k)]
-        # random correlation matrix (positive definite) scaled by d
-        B = [[rng.gauss(0, 1) for _ in range(k + 2)] for _ in range(k)]
-        C = [[sum(B[i][l] * B[j][l] for l in range(k + 2)) for j in range(k)] for i in range(k)]
-        M = [[C[i][j] / math.sqrt(C[i][i] * C[j][j]) * math.sqrt(d[i] * d[j]) for j in range(k)] for i in range(k)]
-        out.append({"id": "quad:pd:%d:%s" % (q, ",".join(pat)), "kind": "quad", "tag": "pd", "M": M, "t": [draw(rng, ct) for ct in pat], "cats": pat,
-                    "c0": rng.uniform(-50, 200), "max_param": 4})
-    bad = [("neg1", [[-2.0]], [1.3]), ("zero1", [[0.0]], [1.3]), ("tinyneg1", [[-1e-8]], [0.7]),
-           ("saddle", [[3.0, 0.5], [0.5, -1.0]], [2.0, -1.5]), ("flat2", [[0.0, 0.0], [0.0, 2.0]], [2.0, 5.0]),
-           ("concave2", [[-4.0, 1.0], [1.0, -3.0]], [1.0, 1.0]), ("neg3", [[5.0, 0, 0], [0, 7.0, 0], [0, 0, -0.5]], [3.0, 3.0, 3.0]),
-           ("neg-first3", [[-5.0, 0, 0], [0, 7.0, 0], [0, 0, 0.5]], [3.0, 0.1, 30.0])]
-    for tag, M, m in bad:
-        out.append({"id": "quad:%s" % tag, "kind": "quad", "tag": tag, "M": M, "m": m, "t": None, "cats": ["badcurv"], "max_param": 4})
-    # indefinite with positive diagonal: the rule only looks at the diagonal
-    out.append({"id": "quad:indef-posdiag", "kind": "quad", "tag": "indef-posdiag", "M": [[2.0, 5.0], [5.0, 2.0]], "t": [3.0, -0.5], "cats": ["above", "below"], "max_param": 4})
-    for f in ["x", "x**2", "1/x", "x + 1/x"]:
-        out.append({"id": "nparam0:" + f, "kind": "nparam0", "fstr": f, "dseed": rng.randrange(2 ** 31), "max_param": rng.choice([4, 4, 1, 5])})
-    for f, k, j, th in [("a0*0*x + a1", 2, 0, [1.7, 2.4]), ("a0 + a1*(x - x)", 2, 1, [2.9, -1.1]), ("a0*x + 0*a1", 2, 1, [1.2, 0.4]),
-                        ("a0*x + a1 + a2 - a2", 3, 2, [1.0, 1.0, 4.0]), ("a0/a0", 1, 0, [2.5])]:
-        out.append({"id": "flat:" + f, "kind": "flat", "fstr": f, "nparam": k, "flat_index": j, "theta": th, "dseed": rng.randrange(2 ** 31), "max_param": 4})
-    # stationary points with clearly negative curvature under the real GaussLikelihood (fixed data seeds: deterministic cases)
-    for sig, ds in [(0.05, 1000), (0.05, 1001), (0.05, 1002), (0.05, 1003), (0.2, 1068), (0.2, 1069), (5.0, 1186), (5.0, 1187)]:
-        out.append({"id": "negcurv:%d" % ds, "kind": "negcurv", "fstr": "(a0*a0 - 2*a0)*x", "slope": 2.0, "sigma": sig, "n": 30, "dseed": ds,
-                    "cats": ["negcurv"], "max_param": 4})
-    for f, slope, ds in [("a0*a0*x - 4*a0*x", 1.0, 2001), ("x*(a0*a0 - 6*a0)", 0.5, 2002)]:
-        out.append({"id": "negcurv:%d" % ds, "kind": "negcurv", "fstr": f, "slope": slope, "sigma": 0.2, "n": 30, "dseed": ds, "cats": ["negcurv"], "max_param": 4})
-    for f, k, th in [("a0*x", 1, [2.0]), ("a0 + a1*x", 2, [1.0, -2.0])]:
-        out.append({"id": "infnll:" + f, "kind": "infnll", "fstr": f, "nparam": k, "theta": th, "dseed": rng.randrange(2 ** 31), "max_param": 4})
-    return out
+CHECKER = "./bin/check C07 (pyvc on esr/fitting/test_all_Fisher.py::convert_params region -> z3)"
 
 
 def check(run):
-    cfgs = configs(run.tier, run.seed)
-    ids = [c["id"] for c in cfgs]
-    if len(set(ids)) != len(ids):
-        raise CheckerError("C07: duplicate configuration ids")
-    order = list(range(len(cfgs)))
-    random.Random(run.seed).shuffle(order)
-    nchunk = 16 if run.tier == "quick" else 32
-    chunks = [[cfgs[i] for i in order[c::nchunk]] for c in range(nchunk)]
-    calls = [("rt_c07.py", {"seed": run.seed, "configs": c, "limit_s": 300}, {"timeout": 900 if run.tier == "quick" else 2400}) for c in chunks if c]
-    res = harness_many(run, calls, workers=16)
-    cases = sum(r["cases"] for r in res)
-    if cases != len(cfgs):
-        raise CheckerError("C07: %d configurations sent, %d reported" % (len(cfgs), cases))
-    distinct, fails = set(), []
-    for r in res:
-        distinct.update(r["distinct_keys"])
-        fails += r["failures"]
-    kinds = {}
-    for c in cfgs:
-        kinds[c["kind"]] = kinds.get(c["kind"], 0) + 1
-    run.add_bounded("convert_params vs the MDL code-length rule from the analytic Hessian (real code)", "esr/fitting/test_all_Fisher.py::convert_params",
-                    "configurations by kind: %s" % ", ".join("%s=%d" % kv for kv in sorted(kinds.items())), cases, len(distinct), len(fails))
-    run.sample({"kinds": kinds})
-    seen = set()
-    fails.sort(key=lambda f: f["key"])
-    for f in fails:
-        # the fixed (seed-independent) bad-curvature cases are all reported; anything else is capped at 6 keys
-        fixed = f["key"].startswith("c07:finite-codelen-for-bad-curvature:")
-        if f["key"] in seen or "cfg" not in f or (not fixed and len([k for k in seen if not k.startswith("c07:finite-codelen-for-bad-curvature:")]) >= 6):
-            continue
-        seen.add(f["key"])
-        run.violation(f["key"], f["error"] + " [config %s]" % f["id"],
-                      {"harness": "rt_c07.py", "payload": {"seed": run.seed, "configs": [f["cfg"]], "limit_s": 300}})
-    if fails and not seen:
-        f = fails[0]
-        run.violation(f["key"], f["error"], {"harness": "rt_c07.py", "payload": {"seed": run.seed, "configs": [c for c in cfgs if c["id"] == f["id"]]}})
-    run.assume("the analytic Hessian of a linear model under Gaussian noise is G^T diag(1/s^2) G", "numdifftools' Hessian of a quadratic is exact to ~1e-6 relative")
-    return run.finish("exploration", META["text"], CHECKER,
-                      rule="cases = convert_params calls; distinct = different (kind, function string, threshold-category pattern) triples")
+    st, failed, eng = D.verify_function(run, "fitting/test_all_Fisher.py", "convert_params", c_fisher.fisher_region_contract, timeout_ms=8000,
+                                        note="region 'snapping and code length' only; Hessian computation and retry logic are not under contract")
+    if D.canary(run, "fitting/test_all_Fisher.py", "convert_params", c_fisher.fisher_region_contract) is False:
+        raise RuntimeError("canary verified: engine vacuous on convert_params region")
+    found, B = _wrap.run_bounded(run, "checks.C07_bounded")
+    _wrap.report_unproved(run, failed, found, "test_all_Fisher.convert_params")
+    run.assume("A-float", "A-ext (numpy models)", "lemma library: counting facts, sum extensionality", "Nsteps abstracted inside the region")
+    run.trust("pyvc", "z3 5.1.0")
+    return run.finish("proof", META["text"], CHECKER)
